@@ -77,6 +77,10 @@ impl Alphabet {
         leaves.push(Item::uint(24));
         leaves.push(Item::nint(23));
         leaves.push(Item::nint(24));
+        // the extremes of the integer range: only data::Int can hold the negative ones
+        leaves.push(Item::uint(u64::MAX));
+        leaves.push(Item::nint(u64::MAX));
+        leaves.push(Item::nint(1 << 63));
         leaves.push(Item::bytes(&[]));
         leaves.push(Item::bytes(&[7; 24]));
         leaves.push(Item::text(""));
